@@ -66,7 +66,9 @@ def async_runner(file, qualname, first_prefix, last_prefix=None):
 
     def build(names):
         args = ast.arguments(posonlyargs=[], args=[ast.arg(arg=n) for n in names], kwonlyargs=[], kw_defaults=[], defaults=[])
-        fn = ast.AsyncFunctionDef(name='extracted', args=args, body=list(stmts), decorator_list=[], returns=None, type_comment=None)
+        # the statements, unmodified, followed by `return locals()` so that the caller sees what they assigned
+        ret = ast.Return(value=ast.Call(func=ast.Name(id='locals', ctx=ast.Load()), args=[], keywords=[]))
+        fn = ast.AsyncFunctionDef(name='extracted', args=args, body=list(stmts) + [ret], decorator_list=[], returns=None, type_comment=None)
         try:
             fn.type_params = []
         except Exception:  # noqa
